@@ -351,6 +351,23 @@ func drawString(t *rapid.T) string {
 	}
 }
 
+// indexedMapKey is the i-th of a sequence of distinct keys of the field's kind.
+func indexedMapKey(fd protoreflect.FieldDescriptor, i int) protoreflect.MapKey {
+	switch fd.Kind() {
+	case protoreflect.StringKind:
+		return protoreflect.ValueOfString(fmt.Sprintf("key%03d", i)).MapKey()
+	case protoreflect.Int32Kind, protoreflect.Sint32Kind, protoreflect.Sfixed32Kind:
+		return protoreflect.ValueOfInt32(int32(i)).MapKey()
+	case protoreflect.Int64Kind, protoreflect.Sint64Kind, protoreflect.Sfixed64Kind:
+		return protoreflect.ValueOfInt64(int64(i)).MapKey()
+	case protoreflect.Uint32Kind, protoreflect.Fixed32Kind:
+		return protoreflect.ValueOfUint32(uint32(i)).MapKey()
+	case protoreflect.Uint64Kind, protoreflect.Fixed64Kind:
+		return protoreflect.ValueOfUint64(uint64(i)).MapKey()
+	}
+	panic("indexedMapKey: unexpected kind " + fd.Kind().String())
+}
+
 func drawMapKey(t *rapid.T, fd protoreflect.FieldDescriptor) protoreflect.MapKey {
 	if fd.Kind() == protoreflect.StringKind {
 		return protoreflect.ValueOfString([]string{"", "k1", "k2", "key-three", "key", "key\x00"}[rapid.IntRange(0, 5).Draw(t, "mkey")]).MapKey()
@@ -389,6 +406,10 @@ func setField(t *rapid.T, r protoreflect.Message, fd protoreflect.FieldDescripto
 	case fd.IsList():
 		l := r.Mutable(fd).List()
 		n := rapid.IntRange(1, 3).Draw(t, "nappend")
+		if fd.Message() == nil && rapid.IntRange(0, 15).Draw(t, "manyelems") == 0 {
+			// now and then a collection long enough to cross whatever a reader or writer counts or batches by
+			n = []int{17, 33, 34, 64, 130}[rapid.IntRange(0, 4).Draw(t, "nmany")]
+		}
 		for i := 0; i < n; i++ {
 			if fd.Message() != nil {
 				ne := l.NewElement()
@@ -403,6 +424,13 @@ func setField(t *rapid.T, r protoreflect.Message, fd protoreflect.FieldDescripto
 		return fmt.Sprintf("append %d to %s", n, fd.Name())
 	case fd.IsMap():
 		mp := r.Mutable(fd).Map()
+		if fd.MapValue().Message() == nil && fd.MapKey().Kind() != protoreflect.BoolKind && rapid.IntRange(0, 15).Draw(t, "manyentries") == 0 {
+			n := []int{17, 33, 40}[rapid.IntRange(0, 2).Draw(t, "nmanyentries")]
+			for i := 0; i < n; i++ {
+				mp.Set(indexedMapKey(fd.MapKey(), i), drawScalar(t, fd.MapValue()))
+			}
+			return fmt.Sprintf("set %d entries of %s", n, fd.Name())
+		}
 		k := drawMapKey(t, fd.MapKey())
 		if fd.MapValue().Message() != nil {
 			nv := mp.NewValue()
